@@ -10,6 +10,7 @@ the run; those mesh facts are not theorems (PARTIAL).
 -/
 import ScadVerif.Lemmas.PtReal
 import ScadVerif.Model.Parts
+import ScadVerif.Lemmas.ThreadLemmas
 namespace ScadVerif.C16
 open ScadVerif ScadVerif.Thread
 
@@ -191,5 +192,18 @@ theorem minor_positive (r : Gen.ThreadRow) (hr : r ∈ Gen.threadTable) :
     rw [mul_div_assoc', mul_div_assoc', div_lt_div_iff₀ hb ha]
     nlinarith
   nlinarith
+
+/-! ### the thread mesh: structure for every parameter set -/
+/-- **C16/C04, thread mesh.** Whatever the diameters, pitch, length, segment count, lead-in/out
+angles and hand: the mesh has 4 points per step, 8 triangles per step (minus the 4 saved at the two
+ends), only triangles, only valid indices, and starts on the minor radius at z = 0
+(point 2 is `(d_min/2, 0, 0)`). -/
+theorem threadMesh_structure (dMin dMaj pitch length : ℝ) (segments : Nat) (li lo : ℝ) (left : Bool)
+    (m : Mesh ℝ) (h : threadMesh dMin dMaj pitch length segments li lo left = some m) :
+    ∃ nSteps, 2 ≤ nSteps ∧ m.points.length = 4 * nSteps ∧ m.faces.length = 8 * nSteps - 4 ∧
+      (∀ f ∈ m.faces, f.length = 3 ∧ ∀ v ∈ f, v < m.points.length) ∧
+      m.points[2]? = some ⟨dMin / 2, 0, 0⟩ := by
+  obtain ⟨n, hn, sh⟩ := ThreadLemmas.threadMesh_shape dMin dMaj pitch length segments li lo left m h
+  exact ⟨n, hn, sh.points, sh.faces, fun f hf => ⟨sh.tri f hf, sh.valid f hf⟩, sh.startZ⟩
 
 end ScadVerif.C16
